@@ -174,7 +174,7 @@ func (t jtx) render(order int, dupKey string) string {
 }
 
 var dupKinds = []string{"", "", "", "", "input.missing-type", "input.missing-type-dup", "input.amount", "input.address", "input.type", "input.extra", "transfer.amount", "transfer.extra", "transfer.wrap", "transfer.wrap-int64", "tx.input", "tx.conversion", "tx.transfers", "tx.transfers-null", "tx.conversion-empty", "tx.extra", "tx.both",
-	"batch.version", "batch.transactions", "batch.extra", "batch.metadata", "case.version", "case.transactions", "case.input", "case.amount", "unicode.key", "neither", "two-inputs", "unknown-ticker", "unknown-conv", "ws"}
+	"batch.version", "batch.transactions", "batch.extra", "batch.metadata", "case.version", "case.transactions", "case.input", "case.amount", "unicode.key", "neither", "two-inputs", "unknown-ticker", "unknown-conv", "escaped-ticker", "ws"}
 
 func (g *c20gen) batch() (string, string) {
 	from := g.addr()
@@ -203,6 +203,19 @@ func (g *c20gen) batch() (string, string) {
 		case "unknown-conv":
 			if i == 0 && t.conv != "" {
 				t.conv = []string{"pNOPE", "peg", "Peg", "PEGG", "pXBTC"}[g.rng.Intn(5)]
+			}
+		case "escaped-ticker":
+			// a ticker spelled with JSON escapes: decodes to a listed name, but is not that name as written
+			esc := func(s string) string {
+				k := g.rng.Intn(len(s))
+				return s[:k] + fmt.Sprintf("\\u%04x", s[k]) + s[k+1:]
+			}
+			if i == 0 {
+				if t.conv != "" && g.rng.Intn(3) != 0 {
+					t.conv = esc(t.conv)
+				} else {
+					t.typ = esc(t.typ)
+				}
 			}
 		}
 		txs = append(txs, t.render(g.rng.Intn(3), dk))
